@@ -27,6 +27,23 @@ TLA_JAR = "/opt/veriftools/tla/tla2tools.jar"
 TLA_CP = TLA_JAR + ":/opt/veriftools/tla/CommunityModules-deps.jar"
 
 
+REPO = os.environ.get("VERIF_REPO") or "/repo"   # development only: run the checks against another checkout
+
+
+def harness_dir():
+    """The harness crate; for VERIF_REPO != /repo a synced copy whose path deps point at that checkout."""
+    if os.path.realpath(REPO) == "/repo":
+        return HARNESS
+    import hashlib
+    d = "/var/tmp/vh-alt-" + hashlib.sha1(os.path.realpath(REPO).encode()).hexdigest()[:10]
+    os.makedirs(d, exist_ok=True)
+    subprocess.run(["rsync", "-a", "--delete", "--exclude", "target", HARNESS + "/", d + "/"], check=True)
+    ct = os.path.join(d, "Cargo.toml")
+    txt = open(ct).read().replace('"/repo/', '"%s/' % os.path.realpath(REPO))
+    open(ct, "w").write(txt)
+    return d
+
+
 class ToolError(Exception):
     """The machinery failed (build, TLC crash, timeout, vacuity, spec drift)."""
 
@@ -273,12 +290,13 @@ class Ctx:
         tdir = os.environ.get("VERIF_TARGET_DIR")     # private target dir for parallel development
         if tdir:
             e["CARGO_TARGET_DIR"] = tdir
-        p = subprocess.run(["cargo", "build", "--offline", "--quiet", "--bin", binname], cwd=HARNESS, env=e,
+        hdir = harness_dir()
+        p = subprocess.run(["cargo", "build", "--offline", "--quiet", "--bin", binname], cwd=hdir, env=e,
                            capture_output=True, text=True, timeout=timeout)
         if p.returncode != 0:
             raise ToolError("harness build failed (%s):\n%s" % (binname, tail(p.stderr, 60)))
         self.log("built %s in %.1fs" % (binname, time.time() - t))
-        return os.path.join(tdir or os.path.join(HARNESS, "target"), "debug", binname)
+        return os.path.join(tdir or os.path.join(hdir, "target"), "debug", binname)
 
     def run_bin(self, binname, args, timeout=900, env=None, ok_codes=(0,)):
         """Builds (incrementally) and runs a harness binary; returns (stdout, stderr)."""
